@@ -17,14 +17,14 @@ RULE = (
     "(10-byte slot||key) with low byte 00 / high byte 00 / both 00 (last two free key bytes solved with the bit-serial reference CRC). Oracle = inverse: "
     "same session key, per block the same kind and fields when a matching decryptor was supplied, else a pass-through block with the same tag and the "
     "bytes that are in the file; component content as C01 (encrypted ones on blob[:declared]). keygrid enumerates every key class x every block kind. "
-    "Before the valid read the same text is read with decryptors of the right kind and selector but wrong secrets (outcome not judged): the valid read afterwards is unaffected. History: the file is written a second time with the same encryptor objects, and a third time after IN-PLACE edits of its block / encryptor attributes (update version, customer key, selector of a default-recipient ECC block): the text carries the blocks as they are at that write. "
+    "A third of the readers of a customer-key block written WITH a customer key hold the block's AES key only (no customer key): they are able to open it. Before the valid read the same text is read with decryptors of the right kind and selector but wrong secrets (outcome not judged): the valid read afterwards is unaffected. History: the file is written a second time with the same encryptor objects, and a third time after IN-PLACE edits of its block / encryptor attributes (update version, customer key, selector of a default-recipient ECC block): the text carries the blocks as they are at that write. "
     "Non-trivial = key/CRC in a zero-byte class, or >= 2 blocks, or a strict decryptor subset; distinct by case hash."
 )
 ASSUMPTIONS = [
     "customer key only at position 0 of the customer-key block (the only position whose slot is the placeholder); other positions are covered on the container in C08",
     "the raw bytes of unopened blocks are taken from the written file by the independent header parser",
 ]
-REQUIRED_CLASSES = ["wrong-secret-read-before-valid-read", "third-write-after-in-place-edit=version", "third-write-after-in-place-edit=customer_key", "third-write-after-in-place-edit=selector", "key.ends00", "upd.crc.lo=00", "upd.crc.hi=00", "upd.crc=0000", "cust.crc.lo=00", "cust.crc.hi=00", "blocks>=2", "strict-subset", "ecc",
+REQUIRED_CLASSES = ["reader-without-the-customer-key", "wrong-secret-read-before-valid-read", "third-write-after-in-place-edit=version", "third-write-after-in-place-edit=customer_key", "third-write-after-in-place-edit=selector", "key.ends00", "upd.crc.lo=00", "upd.crc.hi=00", "upd.crc=0000", "cust.crc.lo=00", "cust.crc.hi=00", "blocks>=2", "strict-subset", "ecc",
                     "enc-component", "route=path", "ecc.edge-scalar", "decoy-decryptors", "unknown-tag-block", "public-only-encryptor-in-reader-list", "file>32KiB"]
 
 KEY_CLASSES = ["random", "ends00", "upd.lo", "upd.hi", "upd.both", "cust.lo", "cust.hi", "cust.both"]
@@ -119,6 +119,8 @@ def check(case, rec):
     except M.Reject as e:
         raise Violation("written BEC2 does not have the documented envelope/header: %s" % e)
     decryptors = [sut.mk_encryptor(blocks[i], role="reader") for i in case["open"]]
+    if any(blocks[i]["kind"] == "cust" and blocks[i].get("customer_key") and not d.customer_key for i, d in zip(case["open"], decryptors)):
+        rec.cls("reader-without-the-customer-key")
     if case.get("decoys"):
         # other ECC decryptors (different key selectors) listed BEFORE the matching ones: selection must go by selector, not by position
         rec.cls("decoy-decryptors")
